@@ -121,12 +121,12 @@ def run(chk):
             writers = [c for c in cs if c["args"] and c["args"][0] == res]
             guarded = [c for c in full + woks + ksw if c["guards"] or c["loops"]]
             if g == "MUX":
-                ok = len(full) == 0 and len(woks) == 2 and len(ksw) == 1 and writers == ksw and not guarded
+                ok = len(full) == 0 and len(woks) == 2 and len(ksw) == 1 and bool(writers) and writers[-1] is ksw[0] and not guarded
                 want = "two bootstraps without key switch into private samples, one key switch into result"
             else:
-                ok = len(full) == 1 and len(woks) == 0 and len(ksw) == 0 and writers == full and not guarded
+                ok = len(full) == 1 and len(woks) == 0 and len(ksw) == 0 and bool(writers) and writers[-1] is full[0] and not guarded
                 want = "one tfhe_bootstrap_FFT (sign bootstrap + key switch) into result"
-            chk.require(ok, "R1", "boots%s: %s, unconditionally, and nothing else writes result" % (g, want), where=f.where,
+            chk.require(ok, "R1", "boots%s: %s, unconditionally, as the last writer of result" % (g, want), where=f.where,
                         ok="writers of result: %s" % [c["name"] for c in writers],
                         bad="bootstraps %s, woKS %d, key switches %d, writers of result %s, conditional %d" % (
                             [c["name"] for c in full], len(woks), len(ksw), [c["name"] for c in writers], len(guarded)), variant=vn)
